@@ -274,6 +274,8 @@ def render_cohdl(spec, cname):
     for o in spec.get('sigs', []):
         n, k, w, d = o[:4]
         args = [] if d is None else [dsrc(k, w, d)]
+        if len(o) > 5 and o[5]:
+            args = [o[5]]      # default taken from an earlier declared object of the same type
         args.append(f"name='{n}'")
         if len(o) > 4 and o[4]:
             args.append("noreset=True")
